@@ -2,6 +2,7 @@ package jschema
 
 import (
 	stdBytes "bytes"
+	"encoding/json"
 
 	"github.com/jsightapi/jsight-schema-core/bytes"
 	"github.com/jsightapi/jsight-schema-core/errs"
@@ -91,7 +92,7 @@ func (b *exampleBuilder) buildExampleForObjectNode(node *ischema.ObjectNode) ([]
 
 func (b *exampleBuilder) buildObjectKey(k ischema.ObjectNodeKey) ([]byte, error) {
 	if !k.IsShortcut {
-		return []byte(k.Key), nil
+		return jsonStringContent(k.Key), nil
 	}
 
 	typ, ok := b.types[k.Key]
@@ -203,7 +204,7 @@ func buildExampleForObjectNode(
 	for i, childNode := range children {
 		key := node.Key(i)
 		b.WriteByte('"')
-		b.WriteString(key.Key)
+		b.Write(jsonStringContent(key.Key))
 		b.WriteString(`":`)
 
 		ex, err := buildExample(childNode, types)
@@ -248,6 +249,21 @@ func buildExampleForArrayNode(
 }
 
 var exampleBufferPool = sync.NewBufferPool(512)
+
+// jsonStringContent returns s encoded as the content of a JSON string (without
+// the surrounding quotes). Object keys are kept decoded, so they have to be
+// escaped again when they are written into the example.
+func jsonStringContent(s string) []byte {
+	var buf stdBytes.Buffer
+	enc := json.NewEncoder(&buf)
+	enc.SetEscapeHTML(false)
+	if err := enc.Encode(s); err != nil {
+		return []byte(s)
+	}
+	// Encode writes `"...."` followed by a newline.
+	b := stdBytes.TrimSuffix(buf.Bytes(), []byte("\n"))
+	return b[1 : len(b)-1]
+}
 
 // copyBytes returns a copy of b. The buffers are given back to the pool when the
 // builder returns, so their memory must not be handed to the caller.
